@@ -160,6 +160,8 @@ def run(ck):
     ck.clause("C16.3", "bin centre conversion formula")
     seeds(ck, "C16.1")
     scanning_loop(ck)
+    from .c11 import window_arguments
+    window_arguments(ck, "C16.2")
     # ---- createPeaks
     cp = p.find_method("CorrelationResult", "createPeaks")
     heights = T.mk_idx(V("peakProperties"), C("peak_heights"))
